@@ -53,7 +53,7 @@ type Op struct {
 	// Hostile: what the expectation in Term relies on ("app-live:id", "app-gone:id", "node-live:id", "node-gone:id",
 	// "key-outstanding:key", "no-app:id"); a reduced history in which this no longer holds is not a counterexample
 	Need []string `json:"need,omitempty"`
-	N   int    `json:"n,omitempty"`
+	N    int      `json:"n,omitempty"`
 }
 
 // Op kinds.
